@@ -18,8 +18,8 @@ META = dict(
           "are printed by the model's own printer and run on the real engine, once without faults and once per (callback invocation x exception kind: "
           "runtime_error, out_of_range, logic_error, a non-std type, eval_error, Boxed_Value); result, output, callback log, the Stack_Holder's shape read "
           "through the hook, and the surviving top-level names must equal the model's; independently of the model the shape must be the resting shape, no "
-          "saved parameters may remain, inner declarations must be gone and the engine must still evaluate. NOT proved: that the saved-parameter lists' "
-          "contents are released (checked on the real engine only)."),
+          "saved parameters may remain, inner declarations must be gone and the engine must still evaluate. A third induction [run_pframe] shows that an evaluation changes at most the last entry of call_params and, started outside any call, leaves it "
+          "as it was or empty: from a state at rest nothing stays saved [saved_parameters_frame, saved_parameters_released_at_rest]."),
     note=("Trusted: Lean kernel, the evaluator model Model/Chai (hand-written from chaiscript_eval.hpp; RAII is modelled by combinators), gen/progs.py, "
           "harness/evalprog.cpp, hook commit (friend Access). Classes/methods, maps, ranged-for and bind are not in the model yet."),
     design_ref="DESIGN.md §6 C09")
